@@ -266,6 +266,8 @@ fn zoo(report: &Report, k: u32) {
         // extension (render finds it through its fallback, include does not)
         ("p2.liquid".into(), "[p2-with-extension {{ x }}]".into()),
         ("p3.liquid".into(), "[p3 {{ x }}]".into()),
+        // a partial with a loop of its own: nested when included from a loop, outermost otherwise
+        ("pl".into(), "[{% for j in (1..2) %}{% if forloop.parentloop %}{{ forloop.parentloop.index }}{% else %}-{% endif %}.{{ j }} {% endfor %}]".into()),
     ];
     let mut templates: Vec<String> = [
         "{% for i in a limit: n offset: m %}{{ i }}{% else %}E{% endfor %}",
@@ -287,6 +289,8 @@ fn zoo(report: &Report, k: u32) {
         "{% for i in a %}{% for j in a limit: n %}{{ forloop.parentloop.index }}{{ j }}{% if j == t %}{% break %}{% endif %}{% endfor %}{% if i == t %}{% continue %}{% endif %}.{% endfor %}",
         "{% comment %}{{ t }}{% endcomment %}{% raw %}{{ t }}{% endraw %}{{ t }}",
         "{% for i in (1..2) %}{% case t %}{% when i %}hit{{ i }}{% when 1, 2 %}low{% else %}E{% endcase %}{% include nm x: i %}{% endfor %}",
+        // the same parsed partial (and the loop in it) executed outside a loop, inside one, or both, depending on the data
+        "{% if n == 1 %}{% include 'pl' %}{% endif %}|{% for i in a limit: 2 %}{% include 'pl' %}{% render 'pl' %}{% endfor %}|{% if m == 1 %}{% include 'pl' %}{% endif %}",
     ]
     .iter()
     .map(|s| s.to_string())
